@@ -648,6 +648,1255 @@ theorem C09_joinN_left_strict (ins : List (List α)) (hs : ∀ l ∈ ins, Strict
     leftJoinMultiple key ins = (leftJoinN key ins, none) :=
   C09_joinN_left key ins (fun l hl => (hs l hl).imp (fun h => Int.le_of_lt h))
 
+/-! ### N-stream inner join -/
+
+theorem refillOrEof_none : ∀ (ss : List (Src α)), (∃ s ∈ ss, remaining s = []) → refillOrEof ss = none
+  | [], h => by obtain ⟨s, hs, _⟩ := h; simp at hs
+  | s :: ss, h => by
+    unfold refillOrEof
+    rcases fill_cases s with ⟨hb, hr, _⟩ | ⟨b, hb, hr⟩
+    · simp [hb]
+    · simp only [hb]
+      obtain ⟨s', hs', hr'⟩ := h
+      rcases mem_cons.mp hs' with rfl | hs'
+      · rw [hr] at hr'; simp at hr'
+      · simp [refillOrEof_none ss ⟨s', hs', hr'⟩]
+
+theorem refillOrEof_some : ∀ (ss : List (Src α)), (∀ s ∈ ss, remaining s ≠ []) →
+    refillOrEof ss = some (ss.map fill)
+  | [], _ => rfl
+  | s :: ss, h => by
+    unfold refillOrEof
+    rcases fill_cases s with ⟨hb, hr, _⟩ | ⟨b, hb, hr⟩
+    · exact absurd hr (h s (by simp))
+    · simp [hb, refillOrEof_some ss (fun s' hs' => h s' (mem_cons_of_mem _ hs'))]
+
+/-- One input in the "advance the inputs behind the maximum" pass. -/
+def adv (M : Int) (s : Src α) : Src α :=
+  match s.buf, s.rest with
+  | some b, x :: xs => if key b < M then { buf := some x, last := some b, rest := xs } else s
+  | _, _ => s
+
+theorem advanceBehind_some (M : Int) : ∀ (ss : List (Src α)),
+    (∀ s ∈ ss, ∀ b, s.buf = some b → key b < M → s.rest ≠ []) →
+    advanceBehind key M ss = some (ss.map (adv key M))
+  | [], _ => rfl
+  | ⟨buf, last, rest⟩ :: ss, h => by
+    have ih := advanceBehind_some M ss (fun s hs => h s (mem_cons_of_mem _ hs))
+    cases buf with
+    | none => simp [advanceBehind, ih, adv]
+    | some b =>
+      by_cases hb : key b < M
+      · cases rest with
+        | nil => exact absurd rfl (h ⟨some b, last, []⟩ (by simp) b rfl hb)
+        | cons x xs => simp [advanceBehind, hb, ih, adv]
+      · cases rest <;> simp [advanceBehind, hb, ih, adv]
+
+theorem advanceBehind_none (M : Int) : ∀ (ss : List (Src α)),
+    (∃ s ∈ ss, ∃ b, s.buf = some b ∧ key b < M ∧ s.rest = []) → advanceBehind key M ss = none
+  | [], h => by obtain ⟨s, hs, _⟩ := h; simp at hs
+  | ⟨buf, last, rest⟩ :: ss, h => by
+    obtain ⟨s', hs', b', hb', hlt', hr'⟩ := h
+    rcases mem_cons.mp hs' with heq | hs'
+    · subst heq
+      simp only at hb' hr'
+      subst hb' hr'
+      simp [advanceBehind, hlt']
+    · have ih := advanceBehind_none M ss ⟨s', hs', b', hb', hlt', hr'⟩
+      cases buf with
+      | none => simp [advanceBehind, ih]
+      | some b =>
+        by_cases hb : key b < M
+        · cases rest <;> simp [advanceBehind, hb, ih]
+        · simp [advanceBehind, hb, ih]
+
+theorem remaining_adv (M : Int) (s : Src α) (b : α) (hb : s.buf = some b) (hr : key b < M → s.rest ≠ []) :
+    remaining (adv key M s) = dropBelow key M (remaining s) := by
+  rcases s with ⟨buf, last, rest⟩
+  simp only at hb hr; subst hb
+  by_cases hlt : key b < M
+  · cases rest with
+    | nil => exact absurd rfl (hr hlt)
+    | cons x xs => simp [adv, hlt, remaining, dropBelow]
+  · cases rest <;> simp [adv, hlt, remaining, dropBelow]
+
+theorem srcOk_adv (M : Int) (s : Src α) (b : α) (hb : s.buf = some b) (hok : SrcOk key s) :
+    SrcOk key (adv key M s) := by
+  rcases s with ⟨buf, last, rest⟩
+  simp only at hb; subst hb
+  by_cases hlt : key b < M
+  · cases rest with
+    | nil => simpa [adv] using hok
+    | cons x xs =>
+      have hst : StrictInc key (b :: x :: xs) := by simpa [remaining] using hok.1
+      refine ⟨?_, ?_⟩
+      · have : remaining (adv key M ⟨some b, last, x :: xs⟩) = x :: xs := by simp [adv, hlt, remaining]
+        rw [this]; exact (pairwise_cons.mp hst).2
+      intro p hp a ha
+      simp only [adv, hlt, if_true, Option.some.injEq] at hp
+      subst hp
+      have ha' : a ∈ x :: xs := by simpa [adv, hlt, remaining] using ha
+      exact (pairwise_cons.mp hst).1 a ha'
+  · cases rest <;> simpa [adv, hlt] using hok
+
+theorem rest_adv_le (M : Int) (s : Src α) : (adv key M s).rest.length ≤ s.rest.length := by
+  rcases s with ⟨buf, last, rest⟩
+  cases buf with
+  | none => simp [adv]
+  | some b =>
+    cases rest with
+    | nil => simp [adv]
+    | cons x xs => by_cases hlt : key b < M <;> simp [adv, hlt]
+
+theorem rest_adv_lt (M : Int) (s : Src α) (b : α) (hb : s.buf = some b) (hlt : key b < M) (hr : s.rest ≠ []) :
+    (adv key M s).rest.length < s.rest.length := by
+  rcases s with ⟨buf, last, rest⟩
+  simp only at hb hr; subst hb
+  cases rest with
+  | nil => exact absurd rfl hr
+  | cons x xs => simp [adv, hlt]
+
+theorem rest_fill_le (s : Src α) : (fill s).rest.length ≤ s.rest.length := by
+  rcases s with ⟨buf, last, rest⟩
+  cases buf <;> cases rest <;> simp [fill]
+
+theorem fill_buf_eq_head (s : Src α) : (fill s).buf = (remaining s).head? := by
+  rcases fill_cases s with ⟨hb, hr, _⟩ | ⟨b, hb, hr⟩
+  · simp [hb, hr]
+  · simp [hb, hr]
+
+theorem emitInnerN_inited (srcs : List (Src α)) (llk : Option α) :
+    emitInnerN key { inited := true, lastLeftKey := llk, srcs := srcs } = innerLoop key (totalRest srcs + 1) srcs := by
+  simp [emitInnerN, initBufs]
+
+/-- The `for` loop of the inner join, given that `collect` is already known to be right for smaller remainders. -/
+theorem innerLoop_correct (n : Nat)
+    (ihc : ∀ (srcs : List (Src α)), (∀ s ∈ srcs, SrcOk key s) → srcs ≠ [] → total (srcs.map remaining) < n →
+      collect (emitInnerN key) n { inited := true, lastLeftKey := none, srcs := srcs }
+        = (innerJoinN key (srcs.map remaining), none)) :
+    ∀ (lfuel : Nat) (ss : List (Src α)), (∀ s ∈ ss, SrcOk key s) → ss ≠ [] → totalRest ss < lfuel →
+      total (ss.map remaining) ≤ n →
+      collectFrom (emitInnerN key) n (innerLoop key lfuel ss) = (innerJoinN key (ss.map remaining), none) := by
+  intro lfuel
+  induction lfuel with
+  | zero => intro _ _ _ h; omega
+  | succ f ih =>
+    intro ss hok hne hfuel htot
+    rw [innerLoop]
+    by_cases hemp : ∃ s ∈ ss, remaining s = []
+    · -- some input is exhausted: the join is over, and the relational join of the remainders is empty
+      rw [refillOrEof_none ss hemp]
+      obtain ⟨s, hs, hr⟩ := hemp
+      rw [innerJoinN_nil_mem key _ (mem_map.mpr ⟨s, hs, hr⟩)]
+      rfl
+    · have hnonemp : ∀ s ∈ ss, remaining s ≠ [] := fun s hs hr => hemp ⟨s, hs, hr⟩
+      rw [refillOrEof_some ss hnonemp]
+      simp only []
+      -- from here on: ss1 = the refilled inputs; same remainders, every slot filled
+      have hL : (ss.map fill).map remaining = ss.map remaining := by
+        rw [map_map]; apply map_congr_left; intro s _; simp
+      have hok1 : ∀ s ∈ ss.map fill, SrcOk key s := by
+        intro s1 hs1; obtain ⟨s, hs, rfl⟩ := mem_map.mp hs1; exact srcOk_fill key (hok s hs)
+      have hbuf1 : ∀ s ∈ ss.map fill, ∃ b, s.buf = some b := by
+        intro s1 hs1; obtain ⟨s, hs, rfl⟩ := mem_map.mp hs1
+        rcases fill_cases s with ⟨_, hr, _⟩ | ⟨b, hb, _⟩
+        · exact absurd hr (hnonemp s hs)
+        · exact ⟨b, hb⟩
+      have hne1 : ss.map fill ≠ [] := by simpa using hne
+      have hrest1 : totalRest (ss.map fill) ≤ totalRest ss := by
+        unfold totalRest
+        exact sum_map_le (fun s : Src α => s.rest.length) fill ss (fun s _ => rest_fill_le s)
+      rw [← hL] at htot ⊢
+      generalize ss.map fill = ss1 at *
+      have hfuel1 : totalRest ss1 < f + 1 := by omega
+      clear hL hnonemp hemp hok hne hrest1 hfuel ss
+      have hrem : ∀ s ∈ ss1, ∀ b, s.buf = some b → remaining s = b :: s.rest := by
+        intro s _ b hb; simp [remaining, hb]
+      -- sortedness assertion passes
+      rw [firstUnsorted_none key ss1 0 (by
+        intro s hs b p hb hp
+        have := (hok1 s hs).2 p hp b (by rw [hrem s hs b hb]; simp)
+        omega)]
+      simp only []
+      have hhk : headKeys key ss1 ≠ [] := by
+        cases ss1 with
+        | nil => exact absurd rfl hne1
+        | cons s0 rest0 =>
+          obtain ⟨b, hb⟩ := hbuf1 s0 (by simp)
+          simp [headKeys, hb]
+      obtain ⟨M, hmax, hmem, hle⟩ := maxKey_spec _ hhk
+      rw [hmax]
+      simp only []
+      have hstrict : ∀ l ∈ ss1.map remaining, StrictInc key l := by
+        intro l hl; obtain ⟨s, hs, rfl⟩ := mem_map.mp hl; exact (hok1 s hs).1
+      by_cases hall : ((headKeys key ss1).all fun k => k == M) = true
+      · -- all heads agree: one row, every input consumed by one element
+        simp only [hall, if_true, collectFrom]
+        have hh : ∀ l ∈ ss1.map remaining, ∃ h t, l = h :: t ∧ key h = M := by
+          intro l hl
+          obtain ⟨s, hs, rfl⟩ := mem_map.mp hl
+          obtain ⟨b, hb⟩ := hbuf1 s hs
+          refine ⟨b, s.rest, hrem s hs b hb, ?_⟩
+          have := all_eq_true.mp hall (key b) ((mem_headKeys key _ _).mpr ⟨s, hs, b, hb, rfl⟩)
+          simpa using this
+        rw [innerJoinN_heads key _ M (by simpa using hne1) hstrict hh]
+        have hrow : ss1.filterMap (fun s => s.buf) = (ss1.map remaining).filterMap head? := by
+          rw [filterMap_map]
+          apply filterMap_congr'
+          intro s hs
+          obtain ⟨b, hb⟩ := hbuf1 s hs
+          simp [hb, hrem s hs b hb]
+        have htail : (ss1.map takeBuf).map remaining = (ss1.map remaining).map tail := by
+          rw [map_map, map_map]; apply map_congr_left; intro s hs
+          obtain ⟨b, hb⟩ := hbuf1 s hs
+          simp [takeBuf, remaining, hb]
+        have hlt : total ((ss1.map remaining).map tail) < total (ss1.map remaining) := by
+          unfold total
+          apply sum_length_map_lt
+          · intro l _; simp
+          · cases ss1 with
+            | nil => exact absurd rfl hne1
+            | cons s0 rest0 =>
+              obtain ⟨b, hb⟩ := hbuf1 s0 (by simp)
+              exact ⟨remaining s0, by simp, by rw [hrem s0 (by simp) b hb]; simp⟩
+        rw [ihc (ss1.map takeBuf) (by
+              intro s' hs'
+              obtain ⟨s, hs, rfl⟩ := mem_map.mp hs'
+              obtain ⟨b, hb⟩ := hbuf1 s hs
+              have hst : StrictInc key (b :: s.rest) := hrem s hs b hb ▸ (hok1 s hs).1
+              have hrt : remaining (takeBuf s) = s.rest := by simp [takeBuf, remaining]
+              refine ⟨by rw [hrt]; exact (pairwise_cons.mp hst).2, ?_⟩
+              intro p hp a ha
+              simp only [takeBuf, hb, Option.some.injEq] at hp
+              subst hp
+              exact (pairwise_cons.mp hst).1 a (by simpa [takeBuf, remaining] using ha))
+            (by simpa using hne1) (by rw [htail]; omega), htail, hrow]
+      · -- some input is behind the maximum head
+        simp only [hall, Bool.false_eq_true, if_false]
+        obtain ⟨sj, hsj, bj, hbj, hkj⟩ := (mem_headKeys key _ _).mp hmem
+        have hex : ∃ l ∈ ss1.map remaining, ∀ a ∈ l, M ≤ key a := by
+          refine ⟨remaining sj, mem_map_of_mem hsj, ?_⟩
+          intro a ha
+          rw [hrem sj hsj bj hbj] at ha
+          rcases mem_cons.mp ha with rfl | ha
+          · omega
+          · have hst : StrictInc key (bj :: sj.rest) := hrem sj hsj bj hbj ▸ (hok1 sj hsj).1
+            have := (pairwise_cons.mp hst).1 a ha
+            omega
+        rw [innerJoinN_dropBelow key _ M hstrict hex]
+        by_cases hadv : ∀ s ∈ ss1, ∀ b, s.buf = some b → key b < M → s.rest ≠ []
+        · rw [advanceBehind_some key M ss1 hadv]
+          simp only []
+          have hdrop : (ss1.map (adv key M)).map remaining = (ss1.map remaining).map (dropBelow key M) := by
+            rw [map_map, map_map]; apply map_congr_left; intro s hs
+            obtain ⟨b, hb⟩ := hbuf1 s hs
+            exact remaining_adv key M s b hb (hadv s hs b hb)
+          -- somebody really is behind, so the rests shrink
+          have hbehind : ∃ s ∈ ss1, ∃ b, s.buf = some b ∧ key b < M := by
+            have : ¬ ∀ k ∈ headKeys key ss1, (k == M) = true := by
+              intro h; exact hall (all_eq_true.mpr h)
+            have : ∃ k ∈ headKeys key ss1, k ≠ M := by
+              apply Classical.byContradiction
+              intro hno
+              apply this
+              intro k hk
+              have : ¬ k ≠ M := fun h => hno ⟨k, hk, h⟩
+              simpa using this
+            obtain ⟨k, hk, hkM⟩ := this
+            obtain ⟨s, hs, b, hb, rfl⟩ := (mem_headKeys key _ _).mp hk
+            exact ⟨s, hs, b, hb, by have := hle _ hk; omega⟩
+          have hrestlt : totalRest (ss1.map (adv key M)) < totalRest ss1 := by
+            unfold totalRest
+            apply sum_map_lt (fun s : Src α => s.rest.length) (adv key M) ss1
+            · intro s _; exact rest_adv_le key M s
+            · obtain ⟨s, hs, b, hb, hlt⟩ := hbehind
+              exact ⟨s, hs, rest_adv_lt key M s b hb hlt (hadv s hs b hb hlt)⟩
+          have htotle : total ((ss1.map remaining).map (dropBelow key M)) ≤ total (ss1.map remaining) := by
+            unfold total
+            exact sum_map_le List.length (dropBelow key M) _ (fun l _ => length_dropBelow_le key M l)
+          rw [ih (ss1.map (adv key M)) (by
+                intro s' hs'
+                obtain ⟨s, hs, rfl⟩ := mem_map.mp hs'
+                obtain ⟨b, hb⟩ := hbuf1 s hs
+                exact srcOk_adv key M s b hb (hok1 s hs))
+              (by simpa using hne1) (by omega) (by rw [hdrop]; omega), hdrop]
+        · -- an input behind the maximum is exhausted: EOF, and indeed nothing more can match
+          have hex2 : ∃ s ∈ ss1, ∃ b, s.buf = some b ∧ key b < M ∧ s.rest = [] := by
+            apply Classical.byContradiction
+            intro hno
+            apply hadv
+            intro s hs b hb hlt hr
+            exact hno ⟨s, hs, b, hb, hlt, hr⟩
+          rw [advanceBehind_none key M ss1 hex2]
+          obtain ⟨s, hs, b, hb, hlt, hr⟩ := hex2
+          rw [innerJoinN_nil_mem key _ (mem_map.mpr ⟨remaining s, mem_map_of_mem hs, by
+            rw [hrem s hs b hb, hr]; simp [dropBelow, hlt]⟩)]
+          rfl
+
+theorem innerN_correct :
+    ∀ (n : Nat) (srcs : List (Src α)), (∀ s ∈ srcs, SrcOk key s) → srcs ≠ [] →
+      total (srcs.map remaining) < n →
+      collect (emitInnerN key) n { inited := true, lastLeftKey := none, srcs := srcs }
+        = (innerJoinN key (srcs.map remaining), none) := by
+  intro n
+  induction n with
+  | zero => intro _ _ _ h; omega
+  | succ n ih =>
+    intro srcs hok hne htot
+    rw [collect_succ, emitInnerN_inited]
+    exact innerLoop_correct key n ih _ srcs hok hne (by omega) (by omega)
+
+/-- **C09, N-stream inner join.** For any number of strictly increasing inputs, `JoinMultipleSortedStreams` delivers
+one row per key present in every input, in key order, slot `i` holding input `i`'s element with that key — and ends
+without error. -/
+theorem C09_joinN_inner (ins : List (List α)) (hs : ∀ l ∈ ins, StrictInc key l) :
+    joinMultiple key ins = (innerJoinN key ins, none) := by
+  unfold joinMultiple
+  by_cases he : ins.isEmpty = true
+  · have : ins = [] := by simpa using he
+    subst this
+    simp [innerJoinN]
+  · simp only [he, Bool.false_eq_true, if_false]
+    have hne : ins ≠ [] := by simpa using he
+    rw [collect_succ]
+    have hemit : emitInnerN key (initN ins)
+        = innerLoop key (totalRest ((initN ins).srcs.map fill) + 1) ((initN ins).srcs.map fill) := by
+      simp [emitInnerN, initBufs, initN]
+    rw [hemit]
+    have hrem : ((initN ins).srcs.map fill).map remaining = ins := by
+      rw [map_map]; simp only [Function.comp_def, remaining_fill, initN, map_map]; simp [remaining]
+    have := innerLoop_correct key (total ins) (innerN_correct key (total ins)) _ ((initN ins).srcs.map fill)
+      (by
+        intro s hs'
+        obtain ⟨s0, hs0, rfl⟩ := mem_map.mp hs'
+        obtain ⟨l, hl, rfl⟩ := mem_map.mp hs0
+        exact srcOk_fill key ⟨by simpa [remaining] using hs l hl, by simp⟩)
+      (by simpa [initN] using hne) (Nat.lt_succ_self _) (by rw [hrem]; exact Nat.le_refl _)
+    rw [hrem] at this
+    exact this
+
 end multi
+
+/-! ## The property's clauses as corollaries -/
+section corollaries
+variable {α β : Type} (kl : α → Int) (kr : β → Int) (key : α → Int)
+
+theorem mem_innerJoin2 (l : List α) (r : List β) (p : α × β) :
+    p ∈ innerJoin2 kl kr l r ↔ p.1 ∈ l ∧ p.2 ∈ r ∧ kr p.2 = kl p.1 := by
+  rcases p with ⟨a, b⟩
+  simp only [innerJoin2, mem_flatMap, mem_map, mem_filter, beq_iff_eq, Prod.mk.injEq]
+  constructor
+  · rintro ⟨a', ha', b', ⟨hb', hk⟩, rfl, rfl⟩; exact ⟨ha', hb', hk⟩
+  · rintro ⟨ha, hb, hk⟩; exact ⟨a, ha, b, ⟨hb, hk⟩, rfl, rfl⟩
+
+/-- Two-stream inner join, in the property's words: the delivered pairs are exactly the pairs (left element, right
+element) of equal key — so every element appears only next to elements of its own key. -/
+theorem C09_join2_inner_pairs [Inhabited β] (l : List α) (r : List β) (hl : NonDec kl l) (hr : StrictInc kr r)
+    (p : α × β) : p ∈ (joinSorted kl kr l r).1 ↔ p.1 ∈ l ∧ p.2 ∈ r ∧ kr p.2 = kl p.1 := by
+  rw [C09_join2_inner kl kr l r hl hr]; exact mem_innerJoin2 kl kr l r p
+
+theorem filter_key_length_le_one (k : Int) : ∀ (r : List β), StrictInc kr r →
+    (r.filter fun b => kr b == k).length ≤ 1
+  | [], _ => by simp
+  | b :: t, hs => by
+    by_cases hk : kr b = k
+    · rw [filter_head_match kr k b t hk hs]; simp
+    · have : (kr b == k) = false := by simpa using hk
+      rw [filter_cons]; simp only [this, Bool.false_eq_true, if_false]
+      exact filter_key_length_le_one k t (pairwise_cons.mp hs).2
+
+theorem leftRows_fst (a : α) (ms : List β) (h : ms.length ≤ 1) : (leftRows a ms).map Prod.fst = [a] := by
+  match ms, h with
+  | [], _ => rfl
+  | [b], _ => rfl
+
+/-- Two-stream left join: every left element is delivered exactly once, in order. -/
+theorem C09_join2_left_covers [Inhabited β] (l : List α) (r : List β) (hl : NonDec kl l) (hr : StrictInc kr r) :
+    (leftJoinSorted kl kr l r).1.map Prod.fst = l := by
+  rw [C09_join2_left kl kr l r hl hr]
+  simp only
+  induction l with
+  | nil => rfl
+  | cons a l ih =>
+    rw [leftJoin2_cons_left, map_append, ih (pairwise_cons.mp hl).2,
+      leftRows_fst a _ (filter_key_length_le_one kr (kl a) r hr)]
+    rfl
+
+theorem mem_leftRows (a : α) (ms : List β) (p : α × Option β) :
+    p ∈ leftRows a ms ↔ p.1 = a ∧ ((p.2 = none ∧ ms = []) ∨ ∃ b ∈ ms, p.2 = some b) := by
+  rcases p with ⟨a', ob⟩
+  cases ms with
+  | nil => simp [leftRows]
+  | cons b ms =>
+    simp only [leftRows, mem_map, Prod.mk.injEq]
+    constructor
+    · rintro ⟨b', hb', rfl, rfl⟩; exact ⟨rfl, Or.inr ⟨b', hb', rfl⟩⟩
+    · rintro ⟨rfl, h⟩
+      rcases h with ⟨_, h⟩ | ⟨b', hb', rfl⟩
+      · simp at h
+      · exact ⟨b', hb', rfl, rfl⟩
+
+/-- Two-stream left join: a delivered right element has the left element's key, and an absent right means that no
+right element has that key. -/
+theorem C09_join2_left_pairs [Inhabited β] (l : List α) (r : List β) (hl : NonDec kl l) (hr : StrictInc kr r)
+    (p : α × Option β) (hp : p ∈ (leftJoinSorted kl kr l r).1) :
+    p.1 ∈ l ∧ (∀ b, p.2 = some b → b ∈ r ∧ kr b = kl p.1) ∧ (p.2 = none → ∀ b ∈ r, kr b ≠ kl p.1) := by
+  rw [C09_join2_left kl kr l r hl hr] at hp
+  simp only [leftJoin2, mem_flatMap] at hp
+  obtain ⟨a, ha, hp⟩ := hp
+  obtain ⟨rfl, h⟩ := (mem_leftRows a _ p).mp hp
+  refine ⟨ha, ?_, ?_⟩
+  · intro b hb
+    rcases h with ⟨hn, _⟩ | ⟨b', hb', hs⟩
+    · rw [hn] at hb; simp at hb
+    · rw [hs] at hb; simp only [Option.some.injEq] at hb; subst hb
+      simpa using mem_filter.mp hb'
+  · intro hn b hb hk
+    rcases h with ⟨_, hnil⟩ | ⟨b', _, hs⟩
+    · have : b ∈ r.filter (fun b => kr b == kl p.1) := mem_filter.mpr ⟨hb, by simpa using hk⟩
+      rw [hnil] at this; simp at this
+    · rw [hs] at hn; simp at hn
+
+theorem lookupKey_some {k : Int} {l : List α} {a : α} (h : lookupKey key k l = some a) : a ∈ l ∧ key a = k := by
+  unfold lookupKey at h
+  exact ⟨mem_of_find?_eq_some h, by simpa using find?_some h⟩
+
+/-- Row keys of the full join: strictly increasing, and exactly the keys present in some input. -/
+theorem C09_full_keys (ins : List (List α)) :
+    ((fullJoinNK key ins).map Prod.fst).Pairwise (· < ·) ∧
+    ∀ k, k ∈ (fullJoinNK key ins).map Prod.fst ↔ ∃ l ∈ ins, ∃ a ∈ l, key a = k := by
+  have : (fullJoinNK key ins).map Prod.fst = keysUnion key ins := by
+    simp [fullJoinNK, Function.comp_def]
+  rw [this]
+  exact ⟨strict_keysUnion key ins, mem_keysUnion key ins⟩
+
+/-- Every element of a full-join row sits in the slot of its own input and has the row's key. -/
+theorem C09_full_row_key (ins : List (List α)) (k : Int) (row : List (Option α))
+    (h : (k, row) ∈ fullJoinNK key ins) :
+    row.length = ins.length ∧ ∀ (i : Nat) (a : α), row[i]? = some (some a) → ∃ l, ins[i]? = some l ∧ a ∈ l ∧ key a = k := by
+  simp only [fullJoinNK, mem_map, Prod.mk.injEq] at h
+  obtain ⟨k', _, rfl, rfl⟩ := h
+  refine ⟨by simp, ?_⟩
+  intro i a hi
+  rw [getElem?_map] at hi
+  cases hl : ins[i]? with
+  | none => simp [hl] at hi
+  | some l =>
+    simp only [hl, Option.map_some, Option.some.injEq] at hi
+    exact ⟨l, rfl, lookupKey_some key hi⟩
+
+/-- Projecting strictly increasing keys through `lookupKey` gives the input back. -/
+theorem filterMap_lookupKey : ∀ (ks : List Int) (l : List α), ks.Pairwise (· < ·) → StrictInc key l →
+    (∀ a ∈ l, key a ∈ ks) → ks.filterMap (fun k => lookupKey key k l) = l
+  | [], l, _, _, h => by
+    cases l with
+    | nil => rfl
+    | cons a t => have := h a (by simp); simp at this
+  | k :: ks, l, hk, hs, h => by
+    have hks : ∀ k' ∈ ks, k < k' := (pairwise_cons.mp hk).1
+    cases l with
+    | nil =>
+      rw [filterMap_eq_nil_iff]; intro k' _; simp [lookupKey]
+    | cons a t =>
+      have hat : ∀ b ∈ t, key a < key b := (pairwise_cons.mp hs).1
+      by_cases hak : key a = k
+      · rw [filterMap_cons]
+        have h1 : lookupKey key k (a :: t) = some a := by simp [lookupKey, hak]
+        rw [h1]
+        simp only []
+        congr 1
+        have ih := filterMap_lookupKey ks t (pairwise_cons.mp hk).2 (pairwise_cons.mp hs).2 (by
+          intro b hb
+          have := h b (by simp [hb])
+          rcases mem_cons.mp this with h' | h'
+          · have := hat b hb; omega
+          · exact h')
+        refine Eq.trans (filterMap_congr' ks ?_) ih
+        intro k' hk'
+        have : (key a == k') = false := by
+          have := hks k' hk'; simp only [beq_eq_false_iff_ne]; omega
+        simp [lookupKey, this]
+      · have hgt : ∀ b ∈ a :: t, k < key b := by
+          have ha : key a ∈ k :: ks := h a (by simp)
+          have hka : k < key a := by
+            rcases mem_cons.mp ha with h' | h'
+            · exact absurd h' hak
+            · exact hks _ h'
+          intro b hb
+          rcases mem_cons.mp hb with rfl | hb
+          · exact hka
+          · have := hat b hb; omega
+        rw [filterMap_cons, lookupKey_none_of_above key k (a :: t) hgt]
+        simp only []
+        apply filterMap_lookupKey ks (a :: t) (pairwise_cons.mp hk).2 hs
+        intro b hb
+        have := h b hb
+        rcases mem_cons.mp this with h' | h'
+        · have := hgt b hb; omega
+        · exact h'
+
+/-- **The full join contains every input element exactly once**: reading slot `i` of the delivered rows from top
+to bottom, skipping the absent ones, gives back input `i` — same elements, same order, no repetition. -/
+theorem C09_full_slot_projection (ins : List (List α)) (hs : ∀ l ∈ ins, StrictInc key l)
+    (i : Nat) (l : List α) (hi : ins[i]? = some l) :
+    (fullJoinMultiple key ins).1.filterMap (fun row => (row[i]?).join) = l := by
+  rw [C09_joinN_full key ins hs]
+  simp only [fullJoinN_eq, filterMap_map]
+  have hl : l ∈ ins := mem_of_getElem? hi
+  rw [← filterMap_lookupKey key (keysUnion key ins) l (strict_keysUnion key ins) (hs l hl)
+    (fun a ha => (mem_keysUnion key ins _).mpr ⟨l, hl, a, ha, rfl⟩)]
+  apply filterMap_congr'
+  intro k _
+  simp [getElem?_map, hi]
+
+/-- Inner join rows: one element per input, all with the key of the row's first element, each from its own input. -/
+theorem C09_inner_row_key (ins : List (List α)) (row : List α) (h : row ∈ innerJoinN key ins) :
+    row.length = ins.length ∧ ∃ k, ∀ (i : Nat) (a : α), row[i]? = some a → ∃ l, ins[i]? = some l ∧ a ∈ l ∧ key a = k := by
+  cases ins with
+  | nil => simp [innerJoinN] at h
+  | cons first others =>
+    simp only [innerJoinN, mem_filterMap, Option.map_eq_some_iff] at h
+    obtain ⟨a, ha, v, hv, rfl⟩ := h
+    have hvs : ∀ (L : List (Option α)) (v : List α), allSome L = some v → L = v.map some := by
+      intro L
+      induction L with
+      | nil => intro v h; simp [allSome] at h; subst h; rfl
+      | cons o L ih =>
+        intro v h
+        cases o with
+        | none => simp [allSome] at h
+        | some x =>
+          simp only [allSome, Option.map_eq_some_iff] at h
+          obtain ⟨v', hv', rfl⟩ := h
+          rw [ih v' hv']; rfl
+    have hmap := hvs _ _ hv
+    have hlen : v.length = others.length := by
+      have := congrArg List.length hmap; simpa using this.symm
+    refine ⟨by simp [hlen], key a, ?_⟩
+    intro i x hx
+    cases i with
+    | zero => simp at hx; subst hx; exact ⟨first, rfl, ha, rfl⟩
+    | succ i =>
+      simp only [getElem?_cons_succ] at hx ⊢
+      have : (others.map (lookupKey key (key a)))[i]? = some (some x) := by rw [hmap]; simp [hx]
+      rw [getElem?_map] at this
+      cases hl : others[i]? with
+      | none => simp [hl] at this
+      | some l =>
+        simp only [hl, Option.map_some, Option.some.injEq] at this
+        exact ⟨l, rfl, lookupKey_some key this⟩
+
+/-- Inner join: there is a row for an element of the first input iff every other input has its key. -/
+theorem C09_inner_rows (first : List α) (others : List (List α)) :
+    (innerJoinN key (first :: others)).filterMap head?
+      = first.filter (fun a => others.all (fun l => l.any (fun b => key b == key a))) := by
+  have hall : ∀ (k : Int) (L : List (List α)),
+      (allSome (L.map (lookupKey key k))).isSome = L.all (fun l => l.any (fun b => key b == k)) := by
+    intro k L
+    induction L with
+    | nil => rfl
+    | cons l L ih =>
+      simp only [map_cons, all_cons]
+      cases hl : lookupKey key k l with
+      | none =>
+        have : l.any (fun b => key b == k) = false := by
+          unfold lookupKey at hl
+          rw [find?_eq_none] at hl
+          rw [any_eq_false]; intro b hb; simpa using hl b hb
+        simp [allSome, this]
+      | some x =>
+        have : l.any (fun b => key b == k) = true := by
+          have := lookupKey_some key hl
+          rw [any_eq_true]; exact ⟨x, this.1, by simpa using this.2⟩
+        simp only [allSome, this, Bool.true_and, ← ih]
+        cases allSome (L.map (lookupKey key k)) <;> rfl
+  simp only [innerJoinN]
+  induction first with
+  | nil => rfl
+  | cons a t ih =>
+    rw [filterMap_cons, filter_cons, ← hall (key a) others]
+    cases h : allSome (others.map (lookupKey key (key a))) with
+    | none => simpa using ih
+    | some v => simpa using ih
+
+/-- Left join rows: the other slots hold elements of their own input with the left element's key. -/
+theorem C09_left_row_key (first : List α) (others : List (List α)) (a : α) (os : List (Option α))
+    (h : (a, os) ∈ leftJoinN key (first :: others)) :
+    a ∈ first ∧ os.length = others.length ∧
+    ∀ (i : Nat) (b : α), os[i]? = some (some b) → ∃ l, others[i]? = some l ∧ b ∈ l ∧ key b = key a := by
+  simp only [leftJoinN, mem_map, Prod.mk.injEq] at h
+  obtain ⟨a', ha', rfl, rfl⟩ := h
+  refine ⟨ha', by simp, ?_⟩
+  intro i b hi
+  rw [getElem?_map] at hi
+  cases hl : others[i]? with
+  | none => simp [hl] at hi
+  | some l =>
+    simp only [hl, Option.map_some, Option.some.injEq] at hi
+    exact ⟨l, rfl, lookupKey_some key hi⟩
+
+/-- Left join: exactly one row per element of the first input, in order. -/
+theorem C09_left_covers (ins : List (List α)) (hs : ∀ l ∈ ins, NonDec key l) (first : List α)
+    (h0 : ins.head? = some first) : (leftJoinMultiple key ins).1.map Prod.fst = first := by
+  rw [C09_joinN_left key ins hs]
+  cases ins with
+  | nil => simp at h0
+  | cons f others =>
+    simp only [head?_cons, Option.some.injEq] at h0; subst h0
+    simp [leftJoinN, Function.comp_def]
+
+end corollaries
+
+/-! ## Timeseries wrappers and the datasource joiners -/
+section wrappers
+variable {ν τ : Type}
+
+/-- The comparator of the wrappers: records are compared by timestamp. -/
+abbrev tk : TsRec ν → Int := fun r => r.1
+
+theorem mem_getElem? {γ : Type} {l : List γ} {x : γ} (h : x ∈ l) : ∃ i : Nat, l[i]? = some x := by
+  obtain ⟨i, hi, rfl⟩ := mem_iff_getElem.mp h
+  exact ⟨i, by simp [hi]⟩
+
+/-- **`FullJoinStreams` stamps each row with the common timestamp**: on strictly increasing inputs the output is
+the full join, the record of key `k` is stamped `k`, and every record that went into it carries timestamp `k`. -/
+theorem C09_ts_full (joiner : List (Option ν) → τ) (ins : List (List (TsRec ν)))
+    (hs : ∀ l ∈ ins, StrictInc (tk (ν := ν)) l) :
+    tsFullJoin joiner ins
+      = ((fullJoinNK (tk (ν := ν)) ins).map (fun p => (p.1, joiner (p.2.map (fun o => o.map (fun r => r.2))))), none)
+    ∧ ∀ p ∈ fullJoinNK (tk (ν := ν)) ins, ∀ r, some r ∈ p.2 → r.1 = p.1 := by
+  have hkey : ∀ p ∈ fullJoinNK (tk (ν := ν)) ins, ∀ r, some r ∈ p.2 → r.1 = p.1 := by
+    intro p hp r hr
+    obtain ⟨i, hi⟩ := mem_getElem? hr
+    obtain ⟨_, _, _, h⟩ := (C09_full_row_key tk ins p.1 p.2 hp).2 i r hi
+    exact h
+  refine ⟨?_, hkey⟩
+  unfold tsFullJoin
+  rw [C09_joinN_full _ ins hs]
+  simp only [fullJoinN, map_map]
+  congr 1
+  apply map_congr_left
+  intro p hp
+  simp only [Function.comp_def]
+  congr 1
+  -- the first present record exists and carries the row's key
+  have hmem : p.1 ∈ (fullJoinNK (tk (ν := ν)) ins).map Prod.fst := mem_map_of_mem hp
+  obtain ⟨l, hl, a, ha, hka⟩ := ((C09_full_keys tk ins).2 p.1).mp hmem
+  have hrow : p.2 = ins.map (lookupKey tk p.1) := by
+    simp only [fullJoinNK, mem_map] at hp
+    obtain ⟨k, _, rfl⟩ := hp; rfl
+  have hsome : ∃ x, lookupKey (tk (ν := ν)) p.1 l = some x := by
+    cases h : lookupKey (tk (ν := ν)) p.1 l with
+    | some x => exact ⟨x, rfl⟩
+    | none =>
+      unfold lookupKey at h
+      rw [find?_eq_none] at h
+      exact absurd (by simpa using hka) (h a ha)
+  obtain ⟨x, hx⟩ := hsome
+  have hxmem : x ∈ p.2.filterMap id := by
+    rw [mem_filterMap]; exact ⟨some x, by rw [hrow]; exact mem_map.mpr ⟨l, hl, hx⟩, rfl⟩
+  cases hh : (p.2.filterMap id).head? with
+  | none => rw [head?_eq_none_iff] at hh; rw [hh] at hxmem; simp at hxmem
+  | some y =>
+    have hy : y ∈ p.2.filterMap id := mem_of_mem_head? hh
+    rw [mem_filterMap] at hy
+    obtain ⟨oy, hoy, hid⟩ := hy
+    simp only [id] at hid; subst hid
+    simp [hkey p hp y hoy]
+
+/-- **`InnerJoinStreams`**: the inner join, each row stamped with `records[0].Timestamp`, which is the timestamp of
+every record of the row. -/
+theorem C09_ts_inner (joiner : List ν → τ) (ins : List (List (TsRec ν)))
+    (hs : ∀ l ∈ ins, StrictInc (tk (ν := ν)) l) :
+    tsInnerJoin joiner ins
+      = ((innerJoinN (tk (ν := ν)) ins).map
+          (fun row => ((row.head?.map (fun r => r.1)).getD zeroTime, joiner (row.map (fun r => r.2)))), none)
+    ∧ ∀ row ∈ innerJoinN (tk (ν := ν)) ins, ∀ r ∈ row, r.1 = (row.head?.map (fun r => r.1)).getD zeroTime := by
+  constructor
+  · unfold tsInnerJoin; rw [C09_joinN_inner _ ins hs]
+  · intro row hrow r hr
+    obtain ⟨_, k, hk⟩ := C09_inner_row_key tk ins row hrow
+    obtain ⟨i, hi⟩ := mem_getElem? hr
+    obtain ⟨_, _, _, hrk⟩ := hk i r hi
+    cases row with
+    | nil => simp at hr
+    | cons x xs =>
+      obtain ⟨_, _, _, hxk⟩ := hk 0 x rfl
+      simp only [head?_cons, Option.map_some, Option.getD_some]
+      simp only [tk] at hrk hxk; omega
+
+/-- **`LeftJoinStreams`**: the left join, each row stamped with the left record's timestamp, which is also the
+timestamp of every other record of the row. -/
+theorem C09_ts_left (joiner : ν → List (Option ν) → τ) (ins : List (List (TsRec ν)))
+    (hs : ∀ l ∈ ins, NonDec (tk (ν := ν)) l) :
+    tsLeftJoin joiner ins
+      = ((leftJoinN (tk (ν := ν)) ins).map
+          (fun row => (row.1.1, joiner row.1.2 (row.2.map (fun o => o.map (fun r => r.2))))), none)
+    ∧ ∀ row ∈ leftJoinN (tk (ν := ν)) ins, ∀ r, some r ∈ row.2 → r.1 = row.1.1 := by
+  constructor
+  · unfold tsLeftJoin; rw [C09_joinN_left _ ins hs]
+  · intro row hrow r hr
+    cases ins with
+    | nil => simp [leftJoinN] at hrow
+    | cons first others =>
+      obtain ⟨i, hi⟩ := mem_getElem? hr
+      obtain ⟨_, _, _, h⟩ := (C09_left_row_key tk first others row.1 row.2 hrow).2.2 i r hi
+      exact h
+
+/-- Padding keeps the columns aligned: if side `i` delivers rows of `widths[i]` cells, a joined row has
+`widths.sum` cells whichever sides are absent. -/
+theorem padded_length : ∀ (widths : List Nat) (values : List (Option (List Cell))),
+    widths.length = values.length →
+    (∀ (i : Nat) (row : List Cell), values[i]? = some (some row) → widths[i]? = some row.length) →
+    (List.zipWith padSide widths values).flatten.length = widths.sum
+  | [], [], _, _ => rfl
+  | [], _ :: _, h, _ => by simp at h
+  | _ :: _, [], h, _ => by simp at h
+  | w :: ws, v :: vs, hlen, h => by
+    have ih := padded_length ws vs (by simpa using hlen) (fun i row hi => by
+      have := h (i+1) row (by simpa using hi); simpa using this)
+    have hw : (padSide w v).length = w := by
+      cases v with
+      | none => simp [padSide]
+      | some row => have := h 0 row rfl; simp at this; simp [padSide, this]
+    simp only [zipWith_cons_cons, flatten_cons, length_append, sum_cons, ih, hw]
+
+/-- **`JoinDatasource` (full join)**: one row per timestamp present in any source, stamped with it; the cells are the
+sources' rows side by side, an absent source contributing `widths[i]` nils. -/
+theorem C09_ds_full (widths : List Nat) (ins : List (List (TsRec (List Cell))))
+    (hs : ∀ l ∈ ins, StrictInc (tk (ν := List Cell)) l) :
+    dsJoin .full widths ins
+      = ((fullJoinNK (tk (ν := List Cell)) ins).map (fun p =>
+          (p.1, (List.zipWith padSide widths (p.2.map (fun o => o.map (fun r => r.2)))).flatten)), none) :=
+  (C09_ts_full (dsFullJoiner widths) ins hs).1
+
+/-- **`JoinDatasource` (inner join)**: rows of the inner join, cells concatenated. -/
+theorem C09_ds_inner (widths : List Nat) (ins : List (List (TsRec (List Cell))))
+    (hs : ∀ l ∈ ins, StrictInc (tk (ν := List Cell)) l) :
+    dsJoin .inner widths ins
+      = ((innerJoinN (tk (ν := List Cell)) ins).map (fun row =>
+          ((row.head?.map (fun r => r.1)).getD zeroTime, (row.map (fun r => r.2)).flatten)), none) :=
+  (C09_ts_inner dsInnerJoiner ins hs).1
+
+/-- **`JoinDatasource` (left join)**: rows of the left join: the left row followed by the other sides, absent ones
+padded with `widths[i+1]` nils. -/
+theorem C09_ds_left (widths : List Nat) (ins : List (List (TsRec (List Cell))))
+    (hs : ∀ l ∈ ins, NonDec (tk (ν := List Cell)) l) :
+    dsJoin .left widths ins
+      = ((leftJoinN (tk (ν := List Cell)) ins).map (fun row =>
+          (row.1.1, row.1.2 ++ (List.zipWith padSide widths.tail (row.2.map (fun o => o.map (fun r => r.2)))).flatten)),
+         none) :=
+  (C09_ts_left (dsLeftJoiner widths) ins hs).1
+
+end wrappers
+
+/-! ## The driver's domain test is the theorems' hypothesis -/
+section domain
+variable {α : Type} (key : α → Int)
+
+theorem isNonDec_iff : ∀ (l : List α), isNonDec key l = true ↔ NonDec key l
+  | [] => by simp [isNonDec, NonDec]
+  | [_] => by simp [isNonDec, NonDec]
+  | a :: b :: r => by
+    have ih := isNonDec_iff (b :: r)
+    simp only [isNonDec, Bool.and_eq_true, decide_eq_true_eq, ih]
+    unfold NonDec
+    constructor
+    · rintro ⟨hab, hbr⟩
+      refine pairwise_cons.mpr ⟨?_, hbr⟩
+      intro c hc
+      rcases mem_cons.mp hc with rfl | hc
+      · exact hab
+      · have := (pairwise_cons.mp hbr).1 c hc; omega
+    · intro h
+      exact ⟨(pairwise_cons.mp h).1 b (by simp), (pairwise_cons.mp h).2⟩
+
+theorem isStrictInc_iff : ∀ (l : List α), isStrictInc key l = true ↔ StrictInc key l
+  | [] => by simp [isStrictInc, StrictInc]
+  | [_] => by simp [isStrictInc, StrictInc]
+  | a :: b :: r => by
+    have ih := isStrictInc_iff (b :: r)
+    simp only [isStrictInc, Bool.and_eq_true, decide_eq_true_eq, ih]
+    unfold StrictInc
+    constructor
+    · rintro ⟨hab, hbr⟩
+      refine pairwise_cons.mpr ⟨?_, hbr⟩
+      intro c hc
+      rcases mem_cons.mp hc with rfl | hc
+      · exact hab
+      · have := (pairwise_cons.mp hbr).1 c hc; omega
+    · intro h
+      exact ⟨(pairwise_cons.mp h).1 b (by simp), (pairwise_cons.mp h).2⟩
+
+end domain
+
+/-! ## The sortedness assertions as the error branch: the full join detects every unsorted input -/
+section unsorted
+variable {α : Type} (key : α → Int)
+
+theorem firstUnsorted_eq_none : ∀ (ss : List (Src α)) (i : Nat), firstUnsorted key i ss = none →
+    ∀ s ∈ ss, ∀ b p, s.buf = some b → s.last = some p → ¬ key b < key p
+  | [], _, _ => by intro s hs; simp at hs
+  | s0 :: ss, i, h => by
+    intro s hs b p hb hp
+    unfold firstUnsorted at h
+    rcases mem_cons.mp hs with rfl | hs
+    · simp only [hb, hp] at h
+      intro hlt; simp [hlt] at h
+    · refine firstUnsorted_eq_none ss (i+1) ?_ s hs b p hb hp
+      split at h
+      · split at h
+        · simp at h
+        · exact h
+      · exact h
+
+/-- What has been checked once the full join ends without error: the remainder of the input is non-decreasing and
+does not start below the remembered `lastKeys[i]`. -/
+def Good (s : Src α) : Prop :=
+  NonDec key (remaining s) ∧ ∀ p a, s.last = some p → (remaining s).head? = some a → key p ≤ key a
+
+theorem nonDec_cons_of_head (b : α) (rest : List α) (hr : NonDec key rest)
+    (hh : ∀ a, rest.head? = some a → key b ≤ key a) : NonDec key (b :: rest) := by
+  refine pairwise_cons.mpr ⟨?_, hr⟩
+  intro c hc
+  cases rest with
+  | nil => simp at hc
+  | cons x xs =>
+    have hbx := hh x rfl
+    rcases mem_cons.mp hc with rfl | hc
+    · exact hbx
+    · have := (pairwise_cons.mp hr).1 c hc; omega
+
+theorem fullN_no_err_good :
+    ∀ (fuel : Nat) (srcs : List (Src α)) (inited : Bool) (llk : Option α) (rows : List (List (Option α))),
+      collect (emitFullN key) fuel { inited := inited, lastLeftKey := llk, srcs := srcs } = (rows, none) →
+      ∀ s ∈ srcs, Good key s := by
+  intro fuel
+  induction fuel with
+  | zero => intro _ _ _ _ h; simp [collect] at h
+  | succ n ih =>
+    intro srcs inited llk rows h s hs
+    rw [collect_succ, emitFullN_eq] at h
+    simp only [] at h
+    have hempty : (fill s).buf = none → Good key s := by
+      intro hb
+      rcases fill_cases s with ⟨_, hr, _⟩ | ⟨b, hb', _⟩
+      · rw [Good, hr]; exact ⟨Pairwise.nil, by simp⟩
+      · rw [hb] at hb'; simp at hb'
+    by_cases hall : ((srcs.map fill).all fun s => s.buf.isNone) = true
+    · have := all_eq_true.mp hall (fill s) (mem_map_of_mem hs)
+      exact hempty (by simpa using this)
+    · simp only [hall, Bool.false_eq_true, if_false] at h
+      cases hfu : firstUnsorted key 0 (srcs.map fill) with
+      | some i => rw [hfu] at h; simp [collectFrom] at h
+      | none =>
+        rw [hfu] at h
+        simp only [] at h
+        have hchk := firstUnsorted_eq_none key _ 0 hfu
+        cases hmin : minKey (headKeys key (srcs.map fill)) with
+        | none =>
+          -- not reached; still fine: no head at all
+          have hnil : headKeys key (srcs.map fill) = [] := by
+            cases hk : headKeys key (srcs.map fill) with
+            | nil => rfl
+            | cons k ks => rw [hk] at hmin; simp [minKey] at hmin
+          apply hempty
+          cases hb : (fill s).buf with
+          | none => rfl
+          | some b =>
+            have : key b ∈ headKeys key (srcs.map fill) :=
+              (mem_headKeys key _ _).mpr ⟨fill s, mem_map_of_mem hs, b, hb, rfl⟩
+            rw [hnil] at this; simp at this
+        | some m =>
+          rw [hmin] at h
+          simp only [collectFrom, Prod.mk.injEq] at h
+          obtain ⟨_, herr⟩ := h
+          have hgood' := ih ((srcs.map fill).map (consumeAt key m)) true none _ (Prod.ext rfl herr)
+            (consumeAt key m (fill s)) (mem_map_of_mem (mem_map_of_mem hs))
+          rcases fill_cases s with ⟨hb, _, _⟩ | ⟨b, hb, hr⟩
+          · exact hempty hb
+          · by_cases hk : (key b == m) = true
+            · -- consumed: the IH speaks about the rest, the assertion about `b` vs `lastKeys[i]`
+              have hrem' : remaining (consumeAt key m (fill s)) = (fill s).rest := by
+                simp [consumeAt, hb, hk, remaining]
+              have hlast' : (consumeAt key m (fill s)).last = some b := by simp [consumeAt, hb, hk]
+              rw [Good, hrem'] at hgood'
+              refine ⟨?_, ?_⟩
+              · rw [hr]
+                exact nonDec_cons_of_head key b _ hgood'.1 (fun a ha => hgood'.2 b a hlast' ha)
+              · intro p a hp ha
+                rw [hr] at ha; simp only [head?_cons, Option.some.injEq] at ha; subst ha
+                have := hchk (fill s) (mem_map_of_mem hs) b p hb (by simpa using hp)
+                omega
+            · have : consumeAt key m (fill s) = fill s := by simp [consumeAt, hb, hk]
+              rw [this] at hgood'
+              simpa [Good] using hgood'
+
+/-- The fuel of `collect` is never the reason the full join ends (for arbitrary, also unsorted, inputs). -/
+theorem fullN_never_fuel :
+    ∀ (fuel : Nat) (srcs : List (Src α)) (inited : Bool) (llk : Option α),
+      total (srcs.map remaining) < fuel →
+      (collect (emitFullN key) fuel { inited := inited, lastLeftKey := llk, srcs := srcs }).2 ≠ some .fuel := by
+  intro fuel
+  induction fuel with
+  | zero => intro _ _ _ h; omega
+  | succ n ih =>
+    intro srcs inited llk hfuel
+    rw [collect_succ, emitFullN_eq]
+    simp only []
+    split
+    · simp [collectFrom]
+    · split
+      · simp [collectFrom]
+      · split
+        · simp [collectFrom]
+        · rename_i m hmin
+          simp only [collectFrom]
+          apply ih
+          have hrem : ((srcs.map fill).map (consumeAt key m)).map remaining
+              = (srcs.map remaining).map (dropIf key m) := by
+            rw [map_map, map_map, map_map]; apply map_congr_left; intro s _
+            exact remaining_consumeAt_fill key m s
+          have hne : headKeys key (srcs.map fill) ≠ [] := by
+            intro hnil; rw [hnil] at hmin; simp [minKey] at hmin
+          obtain ⟨m', hm', hmem, _⟩ := minKey_spec _ hne
+          rw [hmin] at hm'; simp only [Option.some.injEq] at hm'; subst hm'
+          obtain ⟨s1, hs1, b, hb, hk⟩ := (mem_headKeys key _ _).mp hmem
+          obtain ⟨s, hs, rfl⟩ := mem_map.mp hs1
+          have hlt : total ((srcs.map remaining).map (dropIf key m)) < total (srcs.map remaining) := by
+            unfold total
+            apply sum_length_map_lt
+            · intro l _; exact length_dropIf_le key m l
+            · refine ⟨remaining s, mem_map_of_mem hs, ?_⟩
+              rcases fill_cases s with ⟨hb', _, _⟩ | ⟨b', hb', hr⟩
+              · rw [hb] at hb'; simp at hb'
+              · rw [hb] at hb'; simp only [Option.some.injEq] at hb'; subst hb'
+                rw [hr]; simp [dropIf, hk]
+          rw [hrem]; omega
+
+theorem fullN_err_cases :
+    ∀ (fuel : Nat) (st : NState α) (e : JErr), (collect (emitFullN key) fuel st).2 = some e →
+      e = .fuel ∨ ∃ i, e = .streamUnsorted i := by
+  intro fuel
+  induction fuel with
+  | zero => intro st e h; simp [collect] at h; exact Or.inl h.symm
+  | succ n ih =>
+    intro st e h
+    rw [collect_succ, emitFullN_eq] at h
+    split at h
+    · simp [collectFrom] at h
+    · split at h
+      · simp only [collectFrom, Option.some.injEq] at h; exact Or.inr ⟨_, h.symm⟩
+      · split at h
+        · simp [collectFrom] at h
+        · exact ih _ e h
+
+/-- **Unsorted input ⇒ error, never a silently wrong result (full join).** If any input of
+`FullJoinMultipleSortedStreams` is not non-decreasing, the stream ends with `stream i is not sorted`. -/
+theorem C09_full_unsorted_err (ins : List (List α)) (h : ∃ l ∈ ins, ¬ NonDec key l) :
+    ∃ i, (fullJoinMultiple key ins).2 = some (.streamUnsorted i) := by
+  obtain ⟨l, hl, hnd⟩ := h
+  have hne : ins.isEmpty = false := by cases ins with | nil => simp at hl | cons _ _ => rfl
+  have hrem : (ins.map fun l => ({ buf := none, last := none, rest := l } : Src α)).map remaining = ins := by
+    rw [map_map]; simp [remaining, Function.comp_def]
+  unfold fullJoinMultiple
+  simp only [hne, Bool.false_eq_true, if_false]
+  cases he : (collect (emitFullN key) (total ins + 1) (initN ins)).2 with
+  | none =>
+    exfalso; apply hnd
+    have := fullN_no_err_good key (total ins + 1) _ false none _ (Prod.ext rfl he)
+      { buf := none, last := none, rest := l } (mem_map_of_mem hl)
+    simpa [Good, remaining] using this.1
+  | some e =>
+    rcases fullN_err_cases key _ _ e he with rfl | ⟨i, rfl⟩
+    · exact absurd he (fullN_never_fuel key (total ins + 1) _ false none (by rw [hrem]; omega))
+    · exact ⟨i, rfl⟩
+
+end unsorted
+
+/-! ## The two-stream left join detects an unsorted left input -/
+section unsorted2
+variable {α β : Type} (kl : α → Int) (kr : β → Int)
+
+theorem emitLeftJoin_row_shape (s s' : J2 α β) (x : α) (l' : List α) (v : α × Option β)
+    (hl : s.left = x :: l') (h : emitLeftJoin kl kr s = .row v s') :
+    s'.left = l' ∧ s'.lastLeftKey = kl x ∧ s'.firstElement = false ∧
+    (s.firstElement = false → s.lastLeftKey ≤ kl x) := by
+  unfold emitLeftJoin at h
+  rw [hl] at h
+  simp only [] at h
+  split at h
+  · simp at h
+  · rename_i s1 hpre
+    have hs1 : s1.firstElement = false ∧ (s.firstElement = false → s.lastLeftKey ≤ kl x) := by
+      by_cases hf : s.firstElement = true
+      · simp only [hf, if_true] at hpre
+        split at hpre <;> (simp only [Option.some.injEq] at hpre; subst hpre; simp [hf])
+      · simp only [hf, Bool.false_eq_true, if_false] at hpre
+        split at hpre
+        · simp at hpre
+        · simp only [Option.some.injEq] at hpre; subst hpre
+          simp_all
+    split at h
+    · simp only [Step.row.injEq] at h
+      obtain ⟨_, rfl⟩ := h
+      exact ⟨by simp, by simp, by simp [hs1.1], hs1.2⟩
+    · split at h
+      · simp only [Step.row.injEq] at h
+        obtain ⟨_, rfl⟩ := h
+        exact ⟨by simp, by simp, by simp [hs1.1], hs1.2⟩
+      · simp at h
+      · split at h <;>
+        · simp only [Step.row.injEq] at h
+          obtain ⟨_, rfl⟩ := h
+          exact ⟨by simp, by simp, by simp [hs1.1], hs1.2⟩
+
+theorem emitLeftJoin_not_eof_fuel (s : J2 α β) (x : α) (l' : List α) (hl : s.left = x :: l') :
+    emitLeftJoin kl kr s ≠ .eof ∧ emitLeftJoin kl kr s ≠ .err .fuel := by
+  unfold emitLeftJoin
+  rw [hl]
+  simp only []
+  split
+  · simp
+  · split
+    · simp
+    · split
+      · simp
+      · simp
+      · split <;> simp
+
+/-- If the left join ends without error, every left element was compared with its predecessor: the left input is
+non-decreasing. -/
+theorem left2_no_err_good :
+    ∀ (fuel : Nat) (s : J2 α β) (rows : List (α × Option β)),
+      collect (emitLeftJoin kl kr) fuel s = (rows, none) →
+      NonDec kl s.left ∧ (s.firstElement = false → ∀ a, s.left.head? = some a → s.lastLeftKey ≤ kl a) := by
+  intro fuel
+  induction fuel with
+  | zero => intro _ _ h; simp [collect] at h
+  | succ n ih =>
+    intro s rows h
+    rw [collect_succ] at h
+    cases hl : s.left with
+    | nil => exact ⟨Pairwise.nil, by simp⟩
+    | cons x l' =>
+      cases hemit : emitLeftJoin kl kr s with
+      | eof => exact absurd hemit (emitLeftJoin_not_eof_fuel kl kr s x l' hl).1
+      | err e => rw [hemit] at h; simp [collectFrom] at h
+      | row v s' =>
+        rw [hemit] at h
+        simp only [collectFrom, Prod.mk.injEq] at h
+        obtain ⟨hl', hk, hf, hle⟩ := emitLeftJoin_row_shape kl kr s s' x l' v hl hemit
+        have := ih s' _ (Prod.ext rfl h.2)
+        rw [hl'] at this
+        refine ⟨nonDec_cons_of_head kl x l' this.1 (fun a ha => ?_), ?_⟩
+        · have := this.2 hf a ha; omega
+        · intro hf' a ha
+          simp only [head?_cons, Option.some.injEq] at ha; subst ha
+          exact hle hf'
+
+theorem left2_never_fuel :
+    ∀ (fuel : Nat) (s : J2 α β), s.left.length < fuel →
+      (collect (emitLeftJoin kl kr) fuel s).2 ≠ some .fuel := by
+  intro fuel
+  induction fuel with
+  | zero => intro _ h; omega
+  | succ n ih =>
+    intro s hfuel
+    rw [collect_succ]
+    cases hl : s.left with
+    | nil => simp [emitLeftJoin, hl, collectFrom]
+    | cons x l' =>
+      cases hemit : emitLeftJoin kl kr s with
+      | eof => simp [collectFrom]
+      | err e =>
+        simp only [collectFrom, ne_eq, Option.some.injEq]
+        rintro rfl
+        exact (emitLeftJoin_not_eof_fuel kl kr s x l' hl).2 hemit
+      | row v s' =>
+        simp only [collectFrom]
+        obtain ⟨hl', _, _, _⟩ := emitLeftJoin_row_shape kl kr s s' x l' v hl hemit
+        apply ih
+        rw [hl']; rw [hl] at hfuel; simp at hfuel; omega
+
+/-- **Unsorted left input ⇒ error (two-stream left join).** `LeftJoinSortedStreams` pulls every left element, so a
+left input that is not non-decreasing always ends in one of the sortedness errors — never in a silently wrong result. -/
+theorem C09_left2_unsorted_err [Inhabited β] (l : List α) (r : List β) (h : ¬ NonDec kl l) :
+    ∃ e, (leftJoinSorted kl kr l r).2 = some e ∧ e ≠ .fuel := by
+  unfold leftJoinSorted
+  cases he : (collect (emitLeftJoin kl kr) (l.length + 1) (init2 l r)).2 with
+  | none =>
+    exact absurd (left2_no_err_good kl kr _ _ _ (Prod.ext rfl he)).1 h
+  | some e =>
+    refine ⟨e, rfl, ?_⟩
+    rintro rfl
+    exact left2_never_fuel kl kr (l.length + 1) (init2 l r) (by simp [init2]) he
+
+end unsorted2
+
+/-! ## Whatever the inputs (sorted or not), the two-stream joins never pair elements of different keys -/
+section soundAny
+variable {α β : Type} (kl : α → Int) (kr : β → Int)
+
+theorem collect_rows_inv {σ ρ : Type} (emit : σ → Step σ ρ) (P : σ → Prop) (Q : ρ → Prop)
+    (hstep : ∀ s v s', P s → emit s = .row v s' → Q v ∧ P s') :
+    ∀ (fuel : Nat) (s : σ), P s → ∀ v ∈ (collect emit fuel s).1, Q v := by
+  intro fuel
+  induction fuel with
+  | zero => intro s _ v hv; simp [collect] at hv
+  | succ n ih =>
+    intro s hs v hv
+    rw [collect_succ] at hv
+    cases hemit : emit s with
+    | eof => rw [hemit] at hv; simp [collectFrom] at hv
+    | err e => rw [hemit] at hv; simp [collectFrom] at hv
+    | row v' s' =>
+      rw [hemit] at hv
+      obtain ⟨hq, hp⟩ := hstep s v' s' hs hemit
+      simp only [collectFrom, mem_cons] at hv
+      rcases hv with rfl | hv
+      · exact hq
+      · exact ih s' hp v hv
+
+/-- The memo of the right side stays an element of the right input, with its own key. -/
+theorem advRight_any (r0 : List β) (lk : Int) : ∀ (r : List β) (lrk : Int) (lrv : β),
+    lrk = kr lrv → lrv ∈ r0 → (∀ b ∈ r, b ∈ r0) →
+    (∀ lrk' lrv' r', advRight kr lk lrk lrv r = .stop lrk' lrv' r' →
+      lrk' = kr lrv' ∧ lrv' ∈ r0 ∧ ∀ b ∈ r', b ∈ r0)
+  | [], lrk, lrv, hk, hm, _ => by
+    intro lrk' lrv' r' h
+    unfold advRight at h
+    split at h
+    · simp at h
+    · simp only [AdvR.stop.injEq] at h; obtain ⟨rfl, rfl, rfl⟩ := h; exact ⟨hk, hm, by simp⟩
+  | y :: r, lrk, lrv, hk, hm, hr => by
+    intro lrk' lrv' r' h
+    unfold advRight at h
+    split at h
+    · split at h
+      · simp at h
+      · exact advRight_any r0 lk r (kr y) y rfl (hr y (by simp)) (fun b hb => hr b (by simp [hb])) lrk' lrv' r' h
+    · simp only [AdvR.stop.injEq] at h; obtain ⟨rfl, rfl, rfl⟩ := h; exact ⟨hk, hm, hr⟩
+
+/-- State invariant: everything the operator holds comes from the inputs. -/
+def FromInputs (l0 : List α) (r0 : List β) (s : J2 α β) : Prop :=
+  (s.firstElement = false → s.lastRightKey = kr s.lastRightValue ∧ s.lastRightValue ∈ r0) ∧
+  (∀ a ∈ s.left, a ∈ l0) ∧ (∀ b ∈ s.right, b ∈ r0)
+
+theorem joinLoop_any (l0 : List α) (r0 : List β) : ∀ (l : List α) (x : α) (lrk : Int) (lrv : β) (r : List β)
+    (v : α × β) (s' : J2 α β), x ∈ l0 → (∀ a ∈ l, a ∈ l0) → lrk = kr lrv → lrv ∈ r0 → (∀ b ∈ r, b ∈ r0) →
+    joinLoop kl kr x (kl x) lrk lrv l r = .row v s' →
+    (v.1 ∈ l0 ∧ v.2 ∈ r0 ∧ kl v.1 = kr v.2) ∧ FromInputs kr l0 r0 s' := by
+  intro l
+  induction l with
+  | nil =>
+    intro x lrk lrv r v s' hx hl hk hm hr h
+    unfold joinLoop at h
+    split at h
+    · simp at h
+    · simp at h
+    · rename_i lrk' lrv' r' hadv
+      obtain ⟨hk', hm', hr'⟩ := advRight_any kr r0 (kl x) r lrk lrv hk hm hr lrk' lrv' r' hadv
+      split at h
+      · rename_i heq
+        simp only [Step.row.injEq] at h
+        obtain ⟨rfl, rfl⟩ := h
+        exact ⟨⟨hx, hm', by rw [← hk']; simpa using heq⟩, ⟨fun _ => ⟨hk', hm'⟩, hl, hr'⟩⟩
+      · simp at h
+  | cons x' l ih =>
+    intro x lrk lrv r v s' hx hl hk hm hr h
+    unfold joinLoop at h
+    split at h
+    · simp at h
+    · simp at h
+    · rename_i lrk' lrv' r' hadv
+      obtain ⟨hk', hm', hr'⟩ := advRight_any kr r0 (kl x) r lrk lrv hk hm hr lrk' lrv' r' hadv
+      split at h
+      · rename_i heq
+        simp only [Step.row.injEq] at h
+        obtain ⟨rfl, rfl⟩ := h
+        exact ⟨⟨hx, hm', by rw [← hk']; simpa using heq⟩, ⟨fun _ => ⟨hk', hm'⟩, hl, hr'⟩⟩
+      · simp only [] at h
+        split at h
+        · simp at h
+        · exact ih x' lrk' lrv' r' v s' (hl x' (by simp)) (fun a ha => hl a (by simp [ha])) hk' hm' hr' h
+
+/-- **Never a wrong row (two-stream inner join)**: for arbitrary inputs — unsorted, duplicate keys, anything — every
+delivered pair consists of a left and a right element of the inputs with equal keys. -/
+theorem C09_join2_inner_sound_any [Inhabited β] (l : List α) (r : List β) (p : α × β)
+    (hp : p ∈ (joinSorted kl kr l r).1) : p.1 ∈ l ∧ p.2 ∈ r ∧ kl p.1 = kr p.2 := by
+  unfold joinSorted at hp
+  refine collect_rows_inv (emitJoin kl kr) (FromInputs kr l r) (fun v => v.1 ∈ l ∧ v.2 ∈ r ∧ kl v.1 = kr v.2)
+    ?_ _ (init2 l r) ⟨by simp [init2], by simp [init2], by simp [init2]⟩ p hp
+  intro s v s' hs hemit
+  obtain ⟨hmemo, hleft, hright⟩ := hs
+  unfold emitJoin at hemit
+  split at hemit
+  · simp at hemit
+  · rename_i x l' hl
+    have hx : x ∈ l := hleft x (by rw [hl]; simp)
+    have hl'' : ∀ a ∈ l', a ∈ l := fun a ha => hleft a (by rw [hl]; simp [ha])
+    split at hemit
+    · split at hemit
+      · simp at hemit
+      · rename_i y r' hr
+        exact joinLoop_any kl kr l r l' x (kr y) y r' v s' hx hl'' rfl (hright y (by rw [hr]; simp))
+          (fun b hb => hright b (by rw [hr]; simp [hb])) hemit
+    · rename_i hf
+      split at hemit
+      · simp at hemit
+      · have hmm := hmemo (by simpa using hf)
+        exact joinLoop_any kl kr l r l' x s.lastRightKey s.lastRightValue s.right v s' hx hl'' hmm.1 hmm.2 hright hemit
+
+end soundAny
+
+/-! ## Non-vacuity: concrete non-trivial inputs meet the hypotheses, and the model computes what the spec says -/
+section examples
+
+abbrev E := Int × Nat
+abbrev ek : E → Int := fun e => e.1
+
+/-- left duplicates (2,2), unmatched keys on both sides (1; 0,3), the right side exhausted before the left (7,7). -/
+def exL : List E := [(1,0),(2,1),(2,2),(5,3),(7,4),(7,5)]
+def exR : List E := [(0,10),(2,11),(3,12),(5,13)]
+
+example : NonDec ek exL ∧ StrictInc ek exR :=
+  ⟨(isNonDec_iff ek exL).mp (by decide), (isStrictInc_iff ek exR).mp (by decide)⟩
+example : joinSorted ek ek exL exR = ([((2,1),(2,11)), ((2,2),(2,11)), ((5,3),(5,13))], none) := by decide
+example : innerJoin2 ek ek exL exR = [((2,1),(2,11)), ((2,2),(2,11)), ((5,3),(5,13))] := by decide
+example : leftJoinSorted ek ek exL exR
+    = ([((1,0),none), ((2,1),some (2,11)), ((2,2),some (2,11)), ((5,3),some (5,13)), ((7,4),none), ((7,5),none)], none) := by
+  decide
+
+/-- three inputs: key 2 in all, 1 and 4 in some, an empty-after-first-element input. -/
+def exIns : List (List E) := [[(1,0),(2,1),(4,2)], [(2,3),(3,4),(4,5)], [(2,6)]]
+
+theorem exIns_strict : ∀ l ∈ exIns, StrictInc ek l := by
+  intro l hl
+  simp only [exIns, mem_cons, not_mem_nil, or_false] at hl
+  rcases hl with rfl | rfl | rfl <;> exact (isStrictInc_iff ek _).mp (by decide)
+example : joinMultiple ek exIns = ([[(2,1),(2,3),(2,6)]], none) := by decide
+example : leftJoinMultiple ek exIns
+    = ([((1,0),[none,none]), ((2,1),[some (2,3), some (2,6)]), ((4,2),[some (4,5), none])], none) := by decide
+example : fullJoinMultiple ek exIns
+    = ([[some (1,0),none,none], [some (2,1),some (2,3),some (2,6)], [none,some (3,4),none],
+        [some (4,2),some (4,5),none]], none) := by decide
+example : fullJoinN ek exIns
+    = [[some (1,0),none,none], [some (2,1),some (2,3),some (2,6)], [none,some (3,4),none],
+       [some (4,2),some (4,5),none]] := by decide
+
+/-- the sortedness assertions are the error branch: unsorted inputs end in an error after the rows delivered so far. -/
+example : joinSorted ek ek [(1,0),(3,1),(2,2)] [(1,10),(2,11),(3,12)]
+    = ([((1,0),(1,10)), ((3,1),(3,12))], some .leftUnsorted) := by decide
+example : fullJoinMultiple ek [[(1,0),(3,1),(2,2)], [(2,3)]]
+    = ([[some (1,0),none], [none,some (2,3)], [some (3,1),none]], some (.streamUnsorted 0)) := by decide
+
+/-- wrappers: rows stamped with the common timestamp; datasource rows padded with nils. -/
+example : tsFullJoin (fun vs => vs) [[(1,100),(2,101)], [(2,200)]]
+    = ([(1,[some 100,none]), (2,[some 101,some 200])], none) := by decide
+example : dsJoin .full [2,1] [[(1,[some 8,some 9])], [(2,[some 16])]]
+    = ([(1,[some 8,some 9,none]), (2,[none,none,some 16])], none) := by decide
+
+end examples
 
 end ShpanVerif.Props.C09
